@@ -16,7 +16,7 @@ RULE = ('older tree (plain mappings/lists/scalars, optionally !call nodes as ent
         'priorities -> exact content, pruned !call nodes never run; (b) same with !force older leaves or a !weak focus -> exactly the strictly '
         'higher-priority entries survive; (c) !merge focus on mapping/list -> key-/index-wise, half of them shaped after the older subtree; '
         '(d) !clear / value-less !del; (e) a list with !force elements replaced by a newer list -> protected elements and un-outranked newer '
-        'elements all present (validity predicate; open finding list-element-survivor-shift); (f) several elements of one list removed by '
+        'elements all present (validity predicate and, since R61, the exact positions); (f) several elements of one list removed by '
         'value-less !del and replaced in one document (mapping with indices from either end, or !merge list) -> simultaneous edit. In (a) and (c) the focus may also meet an older '
         'list or scalar. '
         'non-trivial = focus depth >=1, or a protected survivor, or a key coinciding with an ancestor key; distinct = hash of the case')
@@ -727,12 +727,15 @@ def _run_e(case, labels):
           and all(type(x) is int for x in got_at) and len(set(got_at)) == len(got_at)
           and set(protected) <= set(got_at) and set(must_new) <= set(got_at)
           and set(got_at) <= set(protected) | set(must_new) | set(may_new))
+    # ... and since R61 (positions are kept while the lists are merged) also where: index by index the protected older element or else the
+    # newer one, then the protected older elements beyond the end of the newer list, in their order
+    exact = [old_list[j][0] if (j < len(old_list) and old_list[j][1] > 0) else new_list[j] for j in range(len(new_list))] + \
+        [v for j, (v, p) in enumerate(old_list) if j >= len(new_list) and p > 0]
+    if ok and got_at != exact:
+        raise Violation(f'C04e: list {[v for v, _ in old_list]} with !force elements {protected} replaced by {new_list}: every element is there, but not '
+                        f'where it belongs: got {got_at!r}, expected {exact!r} (a protected element keeps its index, the newer elements theirs){src}')
     if not ok:
-        shifted = probes.counters['prefilter_drops'] or probes.counters['partial_list_prune']
-        fid = None
-        if (protected and shifted and isinstance(got_at, list) and got_at == _shift_model(old_list, new_list, via)
-                and O.canon_unordered(frame_got) == O.canon_unordered(frame_expected)):
-            fid = 'list-element-survivor-shift'
+        fid = None      # (until R61 the index-shift behaviour was an open finding, attributed by a model of it and a probe)
         raise Violation(f'C04e: list {[v for v, _ in old_list]} with !force elements {protected} replaced by {new_list}: the result must hold the protected '
                         f'older elements, every newer element that is not outranked at its index ({must_new}) and nothing else of the older list; '
                         f'got {got_at!r} (whole config {got!r}){src}', finding=fid)
